@@ -10,113 +10,113 @@ namespace ScionTime.Model.Skel
 
 /-- core/server, handleRequest -/
 def Server.handleRequest : List Row := [
-  (0, "func handleRequest(clientID string, req *ntp.Packet, rxt, txt *time.Time, resp *ntp.Packet)"),  -- ?
-  (1, "resp.SetVersion(ntp.VersionMax)"),  -- ?
-  (1, "resp.SetMode(ntp.ModeServer)"),  -- ?
-  (1, "resp.Stratum = 1"),  -- ?
-  (1, "resp.Poll = req.Poll"),  -- ?
-  (1, "resp.Precision = -32"),  -- ?
-  (1, "resp.RootDispersion = ntp.Time32{Seconds: 0, Fraction: 10}"),  -- ?
-  (1, "resp.ReferenceID = serverRefID"),  -- ?
-  (1, "*txt = timebase.Now()"),  -- ?
-  (1, "if !rxt.Before(*txt)"),  -- ?
-  (2, "*txt = rxt.Add(1)"),  -- ?
-  (1, "rxt64 := ntp.Time64FromTime(*rxt)"),  -- ?
-  (1, "txt64 := ntp.Time64FromTime(*txt)"),  -- ?
-  (1, "tssMu.Lock()"),  -- ?
-  (1, "defer tssMu.Unlock()"),  -- ?
-  (1, "var o, min, max int"),  -- ?
-  (1, "tssi, ok := tss[clientID]"),  -- ?
-  (1, "if ok"),  -- ?
-  (2, "for"),  -- ?
-  (3, "var i int"),  -- ?
-  (3, "for i, o, min, max = 0, -1, -1, -1; i != tssi.len; i++"),  -- ?
-  (4, "if tssi.buf[i].rxt == rxt64"),  -- ?
-  (5, "break"),  -- ?
-  (4, "if tssi.buf[i].rxt == req.OriginTime"),  -- ?
-  (5, "o = i"),  -- ?
-  (4, "if min == -1 || tssi.buf[i].rxt.Before(tssi.buf[min].rxt)"),  -- ?
-  (5, "min = i"),  -- ?
-  (4, "if max == -1 || !tssi.buf[i].rxt.Before(tssi.buf[max].rxt)"),  -- ?
-  (5, "max = i"),  -- ?
-  (3, "if i != tssi.len"),  -- ?
-  (4, "*rxt = rxt.Add(1)"),  -- ?
-  (4, "rxt64 = ntp.Time64FromTime(*rxt)"),  -- ?
-  (4, "if !rxt.Before(*txt)"),  -- ?
-  (5, "*txt = *rxt"),  -- ?
-  (5, "*txt = txt.Add(1)"),  -- ?
-  (5, "txt64 = ntp.Time64FromTime(*txt)"),  -- ?
-  (4, "continue"),  -- ?
-  (3, "break"),  -- ?
-  (1, "else"),  -- ?
-  (2, "if len(tss) == tssCap && !tssQ[0].qval.After(rxt64)"),  -- ?
-  (3, "x := heap.Pop(&tssQ).(*tssItem)"),  -- ?
-  (3, "delete(tss, x.key)"),  -- ?
-  (2, "if len(tss) == tssCap"),  -- ?
-  (3, "tssi = nil"),  -- ?
-  (2, "else"),  -- ?
-  (3, "tssi = &tssItem{key: clientID}"),  -- ?
-  (3, "tss[tssi.key] = tssi"),  -- ?
-  (3, "tssi.qval = rxt64"),  -- ?
-  (3, "heap.Push(&tssQ, tssi)"),  -- ?
-  (2, "o, min, max = -1, -1, -1"),  -- ?
-  (1, "resp.ReferenceTime = txt64"),  -- ?
-  (1, "resp.ReceiveTime = rxt64"),  -- ?
-  (1, "if req.ReceiveTime != req.TransmitTime && o != -1"),  -- ?
-  (2, "resp.OriginTime = req.ReceiveTime"),  -- ?
-  (2, "resp.TransmitTime = tssi.buf[o].txt"),  -- ?
-  (1, "else"),  -- ?
-  (2, "resp.OriginTime = req.TransmitTime"),  -- ?
-  (2, "resp.TransmitTime = txt64"),  -- ?
-  (1, "if tssi != nil"),  -- ?
-  (2, "if max != -1 && rxt64.After(tssi.buf[max].rxt)"),  -- ?
-  (3, "tssi.qval = rxt64"),  -- ?
-  (3, "heap.Fix(&tssQ, tssi.qidx)"),  -- ?
-  (2, "if o != -1"),  -- ?
-  (3, "tssi.buf[o].rxt = rxt64"),  -- ?
-  (3, "tssi.buf[o].txt = txt64"),  -- ?
-  (2, "else if tssi.len == cap(tssi.buf)"),  -- ?
-  (3, "tssi.buf[min].rxt = rxt64"),  -- ?
-  (3, "tssi.buf[min].txt = txt64"),  -- ?
-  (2, "else"),  -- ?
-  (3, "tssi.buf[tssi.len].rxt = rxt64"),  -- ?
-  (3, "tssi.buf[tssi.len].txt = txt64"),  -- ?
-  (3, "tssi.len++")  -- ?
+  (0, "func handleRequest(clientID string, req *ntp.Packet, rxt, txt *time.Time, resp *ntp.Packet)"),  -- Server.handleRequestG (handleRequest := handleRequestG true; harness op srv.hr)
+  (1, "resp.SetVersion(ntp.VersionMax)"),  -- ServerReply.replyLvm / replyHeader: version 4
+  (1, "resp.SetMode(ntp.ModeServer)"),  -- ServerReply.replyLvm / replyHeader: mode 4
+  (1, "resp.Stratum = 1"),  -- ServerReply.replyStratum
+  (1, "resp.Poll = req.Poll"),  -- ServerReply.replyHeader: poll copied from the request
+  (1, "resp.Precision = -32"),  -- ServerReply.replyPrecision
+  (1, "resp.RootDispersion = ntp.Time32{Seconds: 0, Fraction: 10}"),  -- ServerReply.replyRootDispersion
+  (1, "resp.ReferenceID = serverRefID"),  -- ServerReply.serverRefID
+  (1, "*txt = timebase.Now()"),  -- Server.handleRequestG: argument `now`
+  (1, "if !rxt.Before(*txt)"),  -- Server.handleRequestG: txt0, `strict` branch (the repair of F9)
+  (2, "*txt = rxt.Add(1)"),  -- Server.handleRequestG: txt0 = rxt0 + 1
+  (1, "rxt64 := ntp.Time64FromTime(*rxt)"),  -- Server.handleRequestG: rxt64 := ofTime …
+  (1, "txt64 := ntp.Time64FromTime(*txt)"),  -- Server.handleRequestG: txt64 := ofTime …
+  (1, "tssMu.Lock()"),  -- Mutex.lean / C07 lock-discipline fact (x_c07.go): the store is a sequential state machine
+  (1, "defer tssMu.Unlock()"),  -- Mutex.lean / C07 lock-discipline fact: released on every exit
+  (1, "var o, min, max int"),  -- Server.Scan: o, mn, mx (−1 = none)
+  (1, "tssi, ok := tss[clientID]"),  -- Server.handleRequestG: match st.items.find id
+  (1, "if ok"),  -- Server.handleRequestG: | some it
+  (2, "for"),  -- Server.uniq: outer loop (fuel len + 1, Props/C06)
+  (3, "var i int"),  -- Server.collides / scanAux: loop index
+  (3, "for i, o, min, max = 0, -1, -1, -1; i != tssi.len; i++"),  -- Server.scan: init ⟨none, none, none⟩; one pass = collides + scanAux
+  (4, "if tssi.buf[i].rxt == rxt64"),  -- Server.collides: e.rx == v
+  (5, "break"),  -- Server.collides = true: inner loop left with i ≠ len
+  (4, "if tssi.buf[i].rxt == req.OriginTime"),  -- Server.scanStep: o
+  (5, "o = i"),  -- Server.scanStep: o := some i
+  (4, "if min == -1 || tssi.buf[i].rxt.Before(tssi.buf[min].rxt)"),  -- Server.scanStep: mn (none, or before e.rx v)
+  (5, "min = i"),  -- Server.scanStep: mn := some (i, e.rx)
+  (4, "if max == -1 || !tssi.buf[i].rxt.Before(tssi.buf[max].rxt)"),  -- Server.scanStep: mx (none, or !before e.rx v)
+  (5, "max = i"),  -- Server.scanStep: mx := some (i, e.rx)
+  (3, "if i != tssi.len"),  -- Server.uniq: if collides buf (ofTime rxt)
+  (4, "*rxt = rxt.Add(1)"),  -- Server.uniq: rxt + 1
+  (4, "rxt64 = ntp.Time64FromTime(*rxt)"),  -- Server.uniq / handleRequestG: rxt64 := ofTime u.1
+  (4, "if !rxt.Before(*txt)"),  -- Server.uniq: txt := if ¬ (rxt < txt) then rxt + 1
+  (5, "*txt = *rxt"),  -- Server.uniq: rxt + 1, first half
+  (5, "*txt = txt.Add(1)"),  -- Server.uniq: rxt + 1, second half
+  (5, "txt64 = ntp.Time64FromTime(*txt)"),  -- Server.handleRequestG: txt64 := ofTime u.2
+  (4, "continue"),  -- Server.uniq: recursive call
+  (3, "break"),  -- Server.uniq: else (rxt, txt)
+  (1, "else"),  -- Server.handleRequestG: | none
+  (2, "if len(tss) == tssCap && !tssQ[0].qval.After(rxt64)"),  -- Server.evict (index tssQ[0]: hrPanics)
+  (3, "x := heap.Pop(&tssQ).(*tssItem)"),  -- Server.popMin: heap.Pop
+  (3, "delete(tss, x.key)"),  -- Server.popMin: erase
+  (2, "if len(tss) == tssCap"),  -- Server.handleRequestG: if st1.items.length = cap
+  (3, "tssi = nil"),  -- Server.handleRequestG: result without an item ⟨st1, reply, rxt0, txt0, ev.2⟩
+  (2, "else"),  -- Server.handleRequestG: else
+  (3, "tssi = &tssItem{key: clientID}"),  -- Server.handleRequestG: it := { buf := [], qval := rxt64, qidx := 0 }
+  (3, "tss[tssi.key] = tssi"),  -- Server.handleRequestG: items := (id, it) :: st1.items
+  (3, "tssi.qval = rxt64"),  -- Server.handleRequestG: it.qval := rxt64
+  (3, "heap.Push(&tssQ, tssi)"),  -- Server.push
+  (2, "o, min, max = -1, -1, -1"),  -- Server.handleRequestG: mkReply … none; entry appended (st3)
+  (1, "resp.ReferenceTime = txt64"),  -- Server.mkReply: ref := txt64
+  (1, "resp.ReceiveTime = rxt64"),  -- Server.mkReply: rx := rxt64
+  (1, "if req.ReceiveTime != req.TransmitTime && o != -1"),  -- Server.mkReply: served = some e ∧ req.rx ≠ req.tx
+  (2, "resp.OriginTime = req.ReceiveTime"),  -- Server.mkReply: org := req.rx (inter := true)
+  (2, "resp.TransmitTime = tssi.buf[o].txt"),  -- Server.mkReply: tx := e.tx
+  (1, "else"),  -- Server.mkReply: basic-mode branches
+  (2, "resp.OriginTime = req.TransmitTime"),  -- Server.mkReply: org := req.tx
+  (2, "resp.TransmitTime = txt64"),  -- Server.mkReply: tx := txt64
+  (1, "if tssi != nil"),  -- Server.handleRequestG: the two branches that store (some it; none with room)
+  (2, "if max != -1 && rxt64.After(tssi.buf[max].rxt)"),  -- Server.hrFix
+  (3, "tssi.qval = rxt64"),  -- Server.fixQval: setQval
+  (3, "heap.Fix(&tssQ, tssi.qidx)"),  -- Server.fixQval: fix
+  (2, "if o != -1"),  -- Server.storeEntry: | some o
+  (3, "tssi.buf[o].rxt = rxt64"),  -- Server.storeEntry: buf.set o e (rx)
+  (3, "tssi.buf[o].txt = txt64"),  -- Server.storeEntry: buf.set o e (tx)
+  (2, "else if tssi.len == cap(tssi.buf)"),  -- Server.storeEntry: buf.length = icap
+  (3, "tssi.buf[min].rxt = rxt64"),  -- Server.storeEntry: buf.set m e (rx)
+  (3, "tssi.buf[min].txt = txt64"),  -- Server.storeEntry: buf.set m e (tx)
+  (2, "else"),  -- Server.storeEntry: else
+  (3, "tssi.buf[tssi.len].rxt = rxt64"),  -- Server.storeEntry: buf ++ [e] (rx)
+  (3, "tssi.buf[tssi.len].txt = txt64"),  -- Server.storeEntry: buf ++ [e] (tx)
+  (3, "tssi.len++")  -- Server.storeEntry: buf ++ [e] (length)
   ]
 
 /-- core/server, updateTXTimestamp -/
 def Server.updateTXTimestamp : List Row := [
-  (0, "func updateTXTimestamp(clientID string, rxt time.Time, txt *time.Time)"),  -- ?
-  (1, "tssMu.Lock()"),  -- ?
-  (1, "defer tssMu.Unlock()"),  -- ?
-  (1, "if !rxt.Before(*txt)"),  -- ?
-  (2, "*txt = rxt"),  -- ?
-  (2, "*txt = txt.Add(1)"),  -- ?
-  (1, "tssi, ok := tss[clientID]"),  -- ?
-  (1, "if ok"),  -- ?
-  (2, "rxt64 := ntp.Time64FromTime(rxt)"),  -- ?
-  (2, "txt64 := ntp.Time64FromTime(*txt)"),  -- ?
-  (2, "var i, x, max0, max1 int"),  -- ?
-  (2, "for i, x, max0, max1 = 0, -1, -1, -1; i != tssi.len; i++"),  -- ?
-  (3, "if tssi.buf[i].rxt == rxt64"),  -- ?
-  (4, "x = i"),  -- ?
-  (3, "if max0 == -1 || !tssi.buf[i].rxt.Before(tssi.buf[max0].rxt)"),  -- ?
-  (4, "max0, max1 = i, max0"),  -- ?
-  (3, "else if max1 == -1 || !tssi.buf[i].rxt.Before(tssi.buf[max1].rxt)"),  -- ?
-  (4, "max1 = i"),  -- ?
-  (2, "if x != -1"),  -- ?
-  (3, "if tssi.buf[x].txt != txt64"),  -- ?
-  (4, "tssi.buf[x].txt = txt64"),  -- ?
-  (3, "else"),  -- ?
-  (4, "if tssi.len == 1"),  -- ?
-  (5, "heap.Remove(&tssQ, tssi.qidx)"),  -- ?
-  (5, "delete(tss, tssi.key)"),  -- ?
-  (4, "else"),  -- ?
-  (5, "if tssi.buf[max0].rxt == rxt64"),  -- ?
-  (6, "tssi.qval = tssi.buf[max1].rxt"),  -- ?
-  (6, "heap.Fix(&tssQ, tssi.qidx)"),  -- ?
-  (5, "tssi.buf[x] = tssi.buf[tssi.len-1]"),  -- ?
-  (5, "tssi.len--")  -- ?
+  (0, "func updateTXTimestamp(clientID string, rxt time.Time, txt *time.Time)"),  -- Server.updateTX (harness op srv.utx)
+  (1, "tssMu.Lock()"),  -- Mutex.lean / C07 lock-discipline fact
+  (1, "defer tssMu.Unlock()"),  -- Mutex.lean / C07 lock-discipline fact: released on every exit
+  (1, "if !rxt.Before(*txt)"),  -- Server.updateTX: txt := if ¬ (rxt < txt1)
+  (2, "*txt = rxt"),  -- Server.updateTX: rxt + 1, first half
+  (2, "*txt = txt.Add(1)"),  -- Server.updateTX: rxt + 1, second half
+  (1, "tssi, ok := tss[clientID]"),  -- Server.updateTX: match st.items.find id
+  (1, "if ok"),  -- Server.updateTX: | some it (| none => (st, txt))
+  (2, "rxt64 := ntp.Time64FromTime(rxt)"),  -- Server.updateTX: rxt64
+  (2, "txt64 := ntp.Time64FromTime(*txt)"),  -- Server.updateTX: txt64
+  (2, "var i, x, max0, max1 int"),  -- Server.Scan2: x, m0, m1
+  (2, "for i, x, max0, max1 = 0, -1, -1, -1; i != tssi.len; i++"),  -- Server.scan2: init ⟨none, none, none⟩, scan2Aux
+  (3, "if tssi.buf[i].rxt == rxt64"),  -- Server.scan2Step: x
+  (4, "x = i"),  -- Server.scan2Step: x := some i
+  (3, "if max0 == -1 || !tssi.buf[i].rxt.Before(tssi.buf[max0].rxt)"),  -- Server.scan2Step: m0 (none, or !before e.rx v)
+  (4, "max0, max1 = i, max0"),  -- Server.scan2Step: m0 := some (i, e.rx), m1 := old m0
+  (3, "else if max1 == -1 || !tssi.buf[i].rxt.Before(tssi.buf[max1].rxt)"),  -- Server.scan2Step: m1 (none, or !before e.rx v')
+  (4, "max1 = i"),  -- Server.scan2Step: m1 := some (i, e.rx)
+  (2, "if x != -1"),  -- Server.updateTX: match sc.x | some x
+  (3, "if tssi.buf[x].txt != txt64"),  -- Server.updateTX: if ex.tx ≠ txt64
+  (4, "tssi.buf[x].txt = txt64"),  -- Server.updateTX: b.set x { ex with tx := txt64 }
+  (3, "else"),  -- Server.updateTX: else
+  (4, "if tssi.len == 1"),  -- Server.updateTX: if it.buf.length = 1
+  (5, "heap.Remove(&tssQ, tssi.qidx)"),  -- Server.remove: heap.Remove
+  (5, "delete(tss, tssi.key)"),  -- Server.remove: erase
+  (4, "else"),  -- Server.updateTX: else
+  (5, "if tssi.buf[max0].rxt == rxt64"),  -- Server.utxFix: v0 = rxt64
+  (6, "tssi.qval = tssi.buf[max1].rxt"),  -- Server.utxFix: fixQval … v1
+  (6, "heap.Fix(&tssQ, tssi.qidx)"),  -- Server.utxFix: fix
+  (5, "tssi.buf[x] = tssi.buf[tssi.len-1]"),  -- Server.updateTX: b.set x (last entry)
+  (5, "tssi.len--")  -- Server.updateTX: dropLast
   ]
 
 /-- core/server, runIPServer -/
